@@ -50,7 +50,11 @@ def _cond_def(prog: dict, c: int, role: str, owner: int, params: List[str], inde
     if con.get("noold"):
         params = [p for p in params if p != "OLD"]
     ekw = ", ".join("{0}={0}".format(p) for p in eparams)
-    esig = ", ".join(eparams)
+    # errdefaults: every parameter of the error factory carries a default (it must still receive the call's values)
+    esig = ", ".join(("{}=None".format(p) if prog.get("errdefaults") else p) for p in eparams)
+    if con.get("wants_args"):
+        # the condition also asks for the positional arguments of the call as a whole
+        params = params + ["_ARGS"]
     owner_async = bool(owner) and prog["fn"][owner - 1]["async"]
     kw = ", ".join("{0}={0}".format(p) for p in params)
     sig = ", ".join(params)
